@@ -16,10 +16,7 @@ Print Assumptions C07_cdx_never_panics.
 
 Theorem C07_spdx_never_panics : forall fmt_time self d,
   spdx_ser fmt_time self d = Err \/ exists s, spdx_ser fmt_time self d = Ok s.
-Proof.
-  intros fmt_time self d. unfold spdx_ser. destruct (d_metadata d); [|left; reflexivity].
-  destruct (d_node_list d); [right; eexists; reflexivity|left; reflexivity].
-Qed.
+Proof. exact spdx_ser_total. Qed.
 Print Assumptions C07_spdx_never_panics.
 
 (* exactly which documents the CycloneDX serializer accepts: metadata and node list present and
@@ -32,17 +29,7 @@ Print Assumptions C07_cdx_accepts_exactly.
 
 Theorem C07_spdx_accepts_exactly : forall fmt_time self d,
   (exists s, spdx_ser fmt_time self d = Ok s) <-> d_metadata d <> None /\ d_node_list d <> None.
-Proof.
-  intros fmt_time self d. unfold spdx_ser. destruct (d_metadata d), (d_node_list d); split.
-  - intros _. split; discriminate.
-  - intros _. eexists. reflexivity.
-  - intros [s H]. discriminate.
-  - intros [_ H]. contradiction.
-  - intros [s H]. discriminate.
-  - intros [H _]. contradiction.
-  - intros [s H]. discriminate.
-  - intros [H _]. contradiction.
-Qed.
+Proof. exact spdx_ser_ok_iff. Qed.
 Print Assumptions C07_spdx_accepts_exactly.
 
 (* the nesting of components terminates: the model's fuel (one more than the number of distinct
@@ -55,12 +42,9 @@ Proof. exact forest_fuel_irrelevant. Qed.
 Print Assumptions C07_cdx_nesting_terminates.
 
 (* no hidden state: the result for a document does not depend on the history of serializations *)
-Definition run_history (ds : list document) : list (result cbom) := map cdx_ser ds.
 Theorem C07_history_independent : forall h1 h2 d,
   last (run_history (h1 ++ [d])) Err = last (run_history (h2 ++ [d])) Err.
-Proof.
-  intros h1 h2 d. unfold run_history. rewrite !map_app. cbn [map]. rewrite !last_last. reflexivity.
-Qed.
+Proof. exact cdx_history_independent. Qed.
 Print Assumptions C07_history_independent.
 
 (* non-vacuity: a cyclic document with an unknown node type and a duplicate identifier serializes;
